@@ -4,6 +4,7 @@
 import OHVerif.Model.Driver
 import OHVerif.Model.Plain
 import OHVerif.Model.Signature
+import OHVerif.Model.IsoCert
 
 namespace OH
 
@@ -46,8 +47,10 @@ def isoRel (m : Res F) (impl : Sx) (note : String := "") : Outcome :=
     match m, (unOk impl).bind (dec (α := F)) with
     | .ok mf, some f =>
       if !f.wf then { model := ms, agree := false, rel := "iso", note := "implementation result is not well-formed" }
-      else match Iso.check mf.toPlain f.toPlain with
-        | .iso => { model := ms, agree := true, rel := "iso" }
+      else match IsoCert.check mf.toPlain f.toPlain with
+        -- the search is untrusted: agreement rests on the certificate checker (Props/IsoCert.lean:
+        -- certOk … = true → ≅)
+        | .iso π ρ => { model := ms, agree := IsoCert.certOk mf.toPlain f.toPlain π ρ, rel := "iso" }
         | .notIso => { model := ms, agree := false, rel := "iso", note := note }
         | .inconclusive => { model := ms, agree := false, rel := "iso", decisive := false, note := "iso search inconclusive" }
     | _, _ => { model := ms, agree := false, rel := "iso", note := m.site }
@@ -146,8 +149,8 @@ def law (_B : Backend) (op : String) (_args : List Sx) (impl : Sx) : Option Outc
         some { model := a, agree := a == b, rel := "law:equal" }
       else if !(fa.wf && fb.wf) then
         some { model := a, agree := false, rel := "law:iso", note := "a side of the law is not well-formed" }
-      else match Iso.check fa.toPlain fb.toPlain with
-        | .iso => some { model := a, agree := true, rel := "law:iso" }
+      else match IsoCert.check fa.toPlain fb.toPlain with
+        | .iso π ρ => some { model := a, agree := IsoCert.certOk fa.toPlain fb.toPlain π ρ, rel := "law:iso" }
         | .notIso => some { model := a, agree := false, rel := "law:iso" }
         | .inconclusive => some { model := a, agree := false, rel := "law:iso", decisive := false, note := "iso search inconclusive" }
     | _, _ => none
